@@ -1,6 +1,7 @@
 (* C12 — iterators yield every entry exactly once, in order, from both ends (list-level part).
    The pointer-level cursors of src/iter.rs are related to take_ends in Layer B (B/CursorB.v). *)
 Require Import LruV.A.TakeEnds LruV.A.InvA LruV.B.TakingB.
+Require Import LruV.A.InvA LruV.B.StepB LruV.B.RefineB LruV.B.ReachB.
 
 (* the list-level specification: for ANY pattern of next()/next_back() calls (any length, past exhaustion)
    on ANY list: what came from the front is a prefix in order, what came from the back is a suffix in
@@ -67,6 +68,23 @@ Example C12_example : take_ends [1; 2; 3; 4; 5] [true; false; false; false; true
   = ([Some 1; Some 5; Some 4; Some 3; Some 2; None; None], []).
 Proof. reflexivity. Qed.
 
+(* at pointer level: drain as the code runs it (seal reset and counter zeroed up front, pairs moved out of the detached nodes
+   from both ends, the rest dropped or leaked) from any reachable state yields take_ends of the entries, and leaves an empty,
+   coherent structure with counter 0 and the same limit *)
+Theorem C12_pointer_level_drain : forall E VS, 0 < E -> VS <= E -> forall b pat f oB b' out evs,
+  ReachB E VS b -> stepB E VS b (DrainOp pat f) oB = Some (b', out, evs) ->
+  let l := ents (absB b) in
+  out = OItems (map (option_map kv) (fst (take_ends l pat))) /\
+  ents (absB b') = [] /\ bcur b' = 0 /\ bmax b' = bmax b /\ RIb b' /\
+  e_dropped evs = (match f with FDrop => all_toks (snd (take_ends l pat)) | FForget => [] end).
+Proof.
+  intros E VS HE HV b pat f oB b' out evs HR Hstep. cbv zeta.
+  destruct (reachB_sound E VS HE HV b HR) as [_ HRa]. pose proof (reach_inv E VS HE HV _ HRa) as HI.
+  destruct (reachB_step E VS HE HV b _ oB b' out evs HR Hstep) as (HA & HRI & _).
+  destruct (C12_drain E VS HE HV _ pat f _ _ out evs HI HA) as (H1 & H2 & H3 & H4 & _ & H6).
+  repeat (split; [assumption|]). assumption.
+Qed.
+
 Print Assumptions C12_split.
 Print Assumptions C12_fused.
 Print Assumptions C12_drain.
@@ -74,3 +92,4 @@ Print Assumptions C12_into_iter.
 Print Assumptions C12_cursor.
 Print Assumptions C12_taking.
 Print Assumptions C12_taking_items.
+Print Assumptions C12_pointer_level_drain.
